@@ -304,7 +304,7 @@ def init_table(ctx, plan=None):
         t = quiet(Table, df, name="t", strict_types=strict, **kw)
         res = None
         ctx.df = t.df
-        if len(set(names)) == len(names):
+        if len(set(names)) == len(names) and not ctx.df.empty:
             ctx.assigned = dict(zip(names, units)) if units is not None else dict(unit_map or {})
         if units is None:
             for n in names:
@@ -380,6 +380,17 @@ def _raised_in(e, func_name):
     return any(fr.name == func_name for fr in traceback.extract_tb(e.__traceback__))
 
 
+def setter_involves_special(ctx, name, new_unit, pre_unit):
+    """is this unit-setter call a relabelling that puts or removes a special unit?  The setter consults the table
+    first, so a column not yet registered gets the unit of its dtype before it is relabelled: judge by the dtype too."""
+    if new_unit in SPECIAL or pre_unit in SPECIAL:
+        return True
+    cols = list(ctx.df.columns)
+    if cols.count(name) == 1:
+        return default_unit(ctx.df[name].dtype.kind) in SPECIAL
+    return False
+
+
 def op_set_units(ctx):
     from pdtable import Table
     rng = ctx.rng
@@ -397,7 +408,7 @@ def op_set_units(ctx):
     except Exception as e:
         res = exc_name(e)
     for n, u in m.items():
-        if u in SPECIAL or pre.get(n) in SPECIAL:
+        if setter_involves_special(ctx, n, u, pre.get(n)):
             ctx.tainted = True
         ctx.expect_default.pop(n, None)
         if res is None:
@@ -420,7 +431,7 @@ def op_set_all_units(ctx):
     except Exception as e:
         res = exc_name(e)
     for name, u in zip(ctx.df.columns, us):
-        if u in SPECIAL or pre.get(name) in SPECIAL:
+        if setter_involves_special(ctx, name, u, pre.get(name)):
             ctx.tainted = True
         ctx.expect_default.pop(name, None)
         if res is None:
@@ -443,7 +454,7 @@ def op_set_col_unit(ctx):
         res = None
     except Exception as e:
         res = exc_name(e)
-    if u in SPECIAL or pre in SPECIAL:
+    if setter_involves_special(ctx, name, u, pre):
         ctx.tainted = True
     ctx.expect_default.pop(name, None)
     if res is None:
@@ -484,11 +495,12 @@ def op_rewrap(ctx):
         ctx.df = t2.df
         ctx.tainted = False
         ctx.expect_default = {}
-        if us is not None:
+        if us is not None and not ctx.df.empty:
             ctx.assigned = dict(zip(list(ctx.df.columns), us))
         ctx.send("rewrap", None, units=us, strict=st)
     else:
         ctx.send("rewrap", res, info=old_info, units=us, strict=st)
+        return f"rewrap({kw}) -> {res['exc']}"
     return f"rewrap({kw})"
 
 
@@ -1168,6 +1180,8 @@ def run_history(out, prop, seed, stream, index, depth, weights=None, plan=None, 
             out.count("op:" + k)
             cur_names = set(ctx.df.columns)
             ctx.assigned = {n: u for n, u in ctx.assigned.items() if n in cur_names}   # units of columns that left are forgotten
+            if ctx.df.empty or len(ctx.df) < 1:
+                ctx.assigned = {}     # the statement is about tables with at least one row: nothing is tracked through empty states
             if skip:
                 # no consultation between this operation and the next one
                 case["ops"].append(d + "  [not consulted]")
